@@ -89,6 +89,8 @@ func checkC07(c *Ctx) {
 	c.Rule("R7.6", "lazy With: fields evaluated exactly once, before every delegation", 3)
 	c.Rule("R7.13", "pooled buffers are released at most once (after a double release two sibling loggers build their contexts in one buffer)", 3)
 	c.As(map[string]string{"R8.4": "R7.13"}, func() { c8SingleRelease(c) })
+	c.Rule("R7.14", "nothing a derived logger keeps (the fields of a lazy With, a context buffer) points into a pooled object that is released: the next call to take that object from the pool would rewrite the child's context", 8)
+	c8UseAfterRelease(c, "R7.14", c8ReleaseFns(c))
 
 	mut := c.mutatesRecv()
 	exemptMut := map[string]string{}
@@ -474,6 +476,31 @@ func lazyOnceWrapper(c *Ctx) *ssa.Function {
 func c7Lazy(c *Ctx) {
 	lz := c.Named(CorePath, "lazyWithCore")
 	init := lazyOnceWrapper(c)
+	if lz != nil && init == nil {
+		// no sync.Once: is the evaluation - the wrapped core's With applied to the stored fields - made somewhere else?
+		var at ssa.Instruction
+		c.EachRootFunc(func(fn *ssa.Function) {
+			if rn := RecvNamed(fn); rn == nil || rn.Obj() != lz.Obj() {
+				return
+			}
+			for _, g := range WithClosures(fn) {
+				for _, cl := range Calls(g) {
+					cc := cl.Common()
+					if cc.IsInvoke() && cc.Method.Name() == "With" && len(cc.Args) == 1 {
+						if _, isF := fieldOfNamed(cc.Value, lz); isF {
+							if _, isF2 := fieldOfNamed(cc.Args[0], lz); isF2 {
+								at = cl
+							}
+						}
+					}
+				}
+			}
+		})
+		if at != nil {
+			c.Bad("R7.6", CorePath+".lazyWithCore", "evaluated-once", at.Pos(), "the lazy fields are evaluated (%s.With(stored fields)) outside a sync.Once: two first uses that race both evaluate them, and the marshalers of the fields run twice, possibly at the same time", Desc(at.(ssa.CallInstruction).Common().Value))
+			return
+		}
+	}
 	if !c.Anchor("R7.6", "zapcore.lazyWithCore and its method that runs the sync.Once", lz != nil && init != nil) {
 		return
 	}
